@@ -200,6 +200,7 @@ for _p in ("C04", "C06", "C08"):
 # the built-in events act through the hook dispatch: their properties depend on the trigger functions and on the call sites of the triggers in the run loop
 REGISTRATION = ["Simulator._add_event", "Simulator._add_event[per-key]", "Simulator._add_event[keys-distinct]", "SequentialRunner._generate_sessions[event]"]
 PROPS["C13"]["tasks"].append("SequentialRunner._generate_sessions[event]")
+PROPS["C14"]["tasks"] += ["FundamentalPriceShock.setup", "OrderMistakeShock.setup"]
 PROPS["C14"]["tasks"] += ["Simulator._trigger_event_before_step_for_market", "Simulator._trigger_event_before_order", "SequentialRunner._iterate_market_updates[step]"] + RUNNER_ELEMS + REGISTRATION
 PROPS["C15"]["tasks"] += ["Simulator._trigger_event_before_order"] + RUNNER_ELEMS + REGISTRATION
 PROPS["C16"]["tasks"] += ["Simulator._trigger_event_after_execution", "Simulator._trigger_event_before_step_for_market", "SequentialRunner._iterate_market_updates[step]"] + RUNNER_ELEMS + REGISTRATION
